@@ -1,0 +1,34 @@
+//go:build verif
+// +build verif
+
+package par1
+
+// This file is compiled only with the "verif" build tag. It exports
+// the package-internal entry points that take the filesystem
+// interface, so that an external verification harness can supply an
+// observing or fault-injecting filesystem.
+
+// VerifFileIO is the filesystem interface used by the package.
+type VerifFileIO interface {
+	ReadFile(path string) ([]byte, error)
+	WriteFile(path string, data []byte) error
+}
+
+// VerifDefaultFileIO returns the filesystem implementation used by
+// Create, Verify and Repair.
+func VerifDefaultFileIO() VerifFileIO { return defaultFileIO{} }
+
+// VerifCreate is Create with the given filesystem.
+func VerifCreate(io VerifFileIO, parPath string, filePaths []string, options CreateOptions) error {
+	return create(io, parPath, filePaths, options)
+}
+
+// VerifVerify is Verify with the given filesystem.
+func VerifVerify(io VerifFileIO, parPath string, options VerifyOptions) (VerifyResult, error) {
+	return verify(io, parPath, options)
+}
+
+// VerifRepair is Repair with the given filesystem.
+func VerifRepair(io VerifFileIO, parPath string, options RepairOptions) (RepairResult, error) {
+	return repair(io, parPath, options)
+}
